@@ -183,8 +183,16 @@ def run_case(spec):
             cfgs += [('init=pca', {'init': 'pca', 'n_components': 2, 'random_state': 0}), ('init=identity', {'init': 'identity'})]
         if name == 'RCA':
             cfgs.append(('n_components=1', {'n_components': 1}))
+            cfgs.append(('non-contiguous chunk ids', {}))
+        ds_given = ds
         for clab, over in cfgs:
             o = dict(budget, **over)
+            ds = ds_given
+            if clab == 'non-contiguous chunk ids':
+                ds = data.scaled(ds_given, 1.0)          # same points; chunklet names 3, 5, 7, ... instead of 0, 1, 2, ...
+                ch = ds_given.chunks.copy()
+                ch[ch >= 0] = 2 * ch[ch >= 0] + 3
+                ds.chunks = ch
             ref = zoo.fit(name, ds, **o)
             d0 = dist_on(ref, ds)
             for t in translations(d)[1:]:
